@@ -218,15 +218,14 @@ class C18(runner.Prop):
                 ctx.fail(f'sort/{name}', f'{got!r} expected {want!r} (insertion {keys!r})')
         if it != [keys.index(k) for k in want]:
             ctx.fail('sort/engine_iter', f'{it!r}')
-        # the twin with key= / reverse= (used by the Python dict handlers)
+        # the twin with key= (used by the Python dict handlers through _sorted_items) and reverse=
         items = [(k, i) for i, k in enumerate(keys)]
-        got = optree.utils.total_order_sorted(items, key=lambda kv: kv[0])
-        if [kv[0] for kv in got] != want and not any(a is not b for a, b in zip([kv[0] for kv in got], want)):
-            ctx.fail('sort/python_twin_key', f'{got!r}')
-        if len(keys) == len(want) and [kv[0] for kv in got] != want:
-            same = all(a is b for a, b in zip([kv[0] for kv in got], want))
-            if not same:
-                ctx.fail('sort/python_twin_key', f'{[kv[0] for kv in got]!r} expected {want!r}')
+        got = [kv[0] for kv in optree.utils.total_order_sorted(items, key=lambda kv: kv[0])]
+        if len(got) != len(want) or any(a is not b for a, b in zip(got, want)):
+            ctx.fail('sort/python_twin_key', f'{got!r} expected {want!r}')
+        one = optree.tree_flatten_one_level(dict.fromkeys(keys, 0)) if keys else None
+        if one is not None and (len(one.entries) != len(want) or any(a is not b for a, b in zip(one.entries, want))):
+            ctx.fail('sort/python_one_level', f'{one.entries!r} expected {want!r}')
 
     # ---- (c)
     def check_nodes(self, case, ctx):
